@@ -58,11 +58,16 @@ type Case struct {
 
 var fileLens = map[string]int{"f0": 0, "f1": 1, "f2": 2, "f3": 3, "f4": 4, "f5": 5, "small8192": 8192, "big8193": 8193, "big16500": 16500,
 	// legal file names that read differently as a request target, each next to the file it would be mistaken for
-	"a%41.txt": 6, "aA.txt": 7, "q?x.txt": 8, "q": 9, "h#x.txt": 10, "h": 11, "100%.txt": 12, "sp ace": 13}
+	"a%41.txt": 6, "aA.txt": 7, "q?x.txt": 8, "q": 9, "h#x.txt": 10, "h": 11, "100%.txt": 12, "sp ace": 13,
+	// names so long that the name of the compressed copy (+".hertz.gz", +".hertz.gz.tmp") exceeds NAME_MAX
+	longName244: 300, longName250: 301}
+
+var longName244 = strings.Repeat("n", 240) + ".txt"
+var longName250 = strings.Repeat("m", 246) + ".txt"
 
 // specialNames: file name -> its encoding as a request path
 var specialNames = map[string]string{"a%41.txt": "/a%2541.txt", "q?x.txt": "/q%3Fx.txt", "h#x.txt": "/h%23x.txt", "100%.txt": "/100%25.txt", "sp ace": "/sp%20ace",
-	"aA.txt": "/aA.txt", "q": "/q", "h": "/h", "a%2541.txt": "/a%252541.txt"}
+	"aA.txt": "/aA.txt", "q": "/q", "h": "/h", "a%2541.txt": "/a%252541.txt", longName244: "/" + longName244, longName250: "/" + longName250}
 
 func content(name string) []byte {
 	n, ok := fileLens[name]
@@ -510,13 +515,16 @@ func run(c *mc.Ctx) {
 	// file names with '%', '?', '#', ' ': the encoded request path names exactly that file (or nothing, for the last one)
 	for name, path := range specialNames {
 		for _, route := range []string{"static", "file", "fromfs"} {
-			for _, opt := range []int{0, 1} {
+			for _, opt := range []int{0, 1, 2, 3} {
 				if route == "file" && opt != 0 {
 					continue
 				}
+				if opt&2 != 0 && (route != "static" || len(name) < 200) {
+					continue // compression: only for the names whose compressed copy cannot be created
+				}
 				for _, rg := range []string{"", "bytes=1-2", "bytes=-1", "bytes=99-"} {
 					for _, m := range []string{"GET", "HEAD"} {
-						r := Req{Method: m, Path: path, Range: rg, Name: name}
+						r := Req{Method: m, Path: path, Range: rg, Name: name, Gzip: opt&2 != 0}
 						cases = append(cases, Case{Opt: opt, Route: route, Reqs: []Req{r, r}})
 					}
 				}
